@@ -43,6 +43,7 @@ func jobsFor(prop, tier string) []Job {
 		typedJobs("hashmaps", add)
 		typedJobs("bidi", add)
 		treadmillJobs([]string{"rbt", "avl", "btree", "treemap", "hashmap", "linkedhashmap", "treebidimap", "hashbidimap"}, add)
+		xlJobs(q, []string{"linkedhashmap"}, add)
 	case "C02":
 		defaultCtorJobs(prop, q, add)
 		kvTreeJobs(prop, q, add)
@@ -50,6 +51,7 @@ func jobsFor(prop, tier string) []Job {
 		typedJobs("trees", add)
 		typedJobs("bidi", add)
 		treadmillJobs([]string{"rbt", "avl", "btree", "treemap", "treeset"}, add)
+		tallJobs(q, add)
 	case "C07":
 		kvTreeJobs(prop, q, add)
 		jsonFamilyJobs(q, add)
@@ -178,6 +180,7 @@ func jobsFor(prop, tier string) []Job {
 		}
 		rewoundJobs("all", q, add)
 		treadmillJobs([]string{"rbt", "btree", "treeset", "binaryheap", "priorityqueue", "doublylinkedlist", "linkedhashmap", "linkedhashset", "treebidimap"}, add)
+		tallJobs(q, add)
 		largeJobs("iter", q, largeSeqLike, add)
 		if !q {
 			largeJobs("rewound", q, largeSeqLike, add)
@@ -399,6 +402,7 @@ func jobsFor(prop, tier string) []Job {
 		add("linkeddeep", fmt.Sprintf("linkedhashset.deep.n%d", dn), 3, map[string]string{"c": "linkedhashset"}, map[string]int{"n": dn, "deep": 1})
 		rewoundJobs("linked", q, add)
 		treadmillJobs([]string{"linkedhashmap", "linkedhashset"}, add)
+		xlJobs(q, []string{"linkedhashmap", "linkedhashset"}, add)
 	case "C05":
 		n := pick(5, 7)
 		for _, k := range []string{"arraystack", "linkedliststack", "arrayqueue", "linkedlistqueue"} {
